@@ -2,10 +2,12 @@ SPECIFICATION TSpec
 CONSTANTS
   Subs = {"s1","s2"}
   K = 3
+  Closers = {"c1","c2"}
   LegacyPlainSend = FALSE
   LegacyNoWgLock = FALSE
   MutClosingFirst = FALSE
   MutSharedCtx = FALSE
+  MutEarlyReturn = FALSE
 CONSTRAINT HighWater
 POSTCONDITION Accepted
 INVARIANTS NoAddDuringWait ClosingAfterInner DropJustified InOrderOnce NothingLostSilently OutClosedAfterIn CloseComplete
